@@ -152,7 +152,7 @@ func checkC07ID(p *Prog, r *Report, ru *Rule, sh *ssa.Function) {
 			ru.Bad(c, posOf(st), "the ID is made outside the per-request handler")
 			continue
 		}
-		call, ok := st.Val.(*ssa.Call)
+		call, ok := stripConv(resolveCell(st.Val), false).(*ssa.Call)
 		if !ok {
 			ru.Bad(c, posOf(st), "the ID is not a freshly rendered value (%s)", describeValue(st.Val))
 			continue
@@ -505,29 +505,45 @@ func checkC07Reread(p *Prog, r *Report, ru *Rule, sh *ssa.Function) {
 			continue /* Error return. */
 		}
 		nret++
-		rs := valueRoots(retVal(ret, 0), func(n string) bool {
+		through := func(n string) bool {
 			switch n {
-			case "(*text/template.Template).Parse", "text/template.Must", "(*text/template.Template).Funcs", "(*text/template.Template).Option":
+			case "(*text/template.Template).Parse", "text/template.Must", "(*text/template.Template).Funcs", "(*text/template.Template).Option",
+				"(*strings.Builder).String", "(*bytes.Buffer).String", "(*bytes.Buffer).Bytes", "io.ReadAll", "io/ioutil.ReadAll", "bufio.NewReader":
 				return true
 			}
 			return false
-		})
+		}
+		rs := valueRoots(retVal(ret, 0), through)
 		readOK := false
 		var other []string
-		for _, x := range rs {
-			switch {
-			case "call" == x.Kind && ("os.ReadFile" == x.Callee || "io/ioutil.ReadFile" == x.Callee):
-				arg := x.V.(*ssa.Call).Common().Args[0]
-				if fv, _ := loadedField(arg); fv == tmplf {
-					readOK = true
-				} else {
-					other = append(other, "reads "+describeValue(arg))
+		var visit func(rs []Root, depth int)
+		visit = func(rs []Root, depth int) {
+			for _, x := range rs {
+				switch {
+				case "call" == x.Kind && ("os.ReadFile" == x.Callee || "io/ioutil.ReadFile" == x.Callee || "os.Open" == x.Callee):
+					arg := x.V.(*ssa.Call).Common().Args[0]
+					if fv, _ := loadedField(resolveCell(arg)); fv == tmplf {
+						readOK = true
+					} else {
+						other = append(other, "reads "+describeValue(arg))
+					}
+				case "call" == x.Kind && "text/template.New" == x.Callee, "const" == x.Kind:
+				case ("alloc" == x.Kind || "other" == x.Kind) && depth < 3 && isBufferAlloc(x.V):
+					/* A local buffer: what was copied into it? */
+					fills, bad := bufferFills(rt, x.V)
+					other = append(other, bad...)
+					if 0 == len(fills) && 0 == len(bad) {
+						other = append(other, "an empty buffer")
+					}
+					for _, f := range fills {
+						visit(valueRoots(f, through), depth+1)
+					}
+				default:
+					other = append(other, x.String())
 				}
-			case "call" == x.Kind && "text/template.New" == x.Callee, "const" == x.Kind:
-			default:
-				other = append(other, x.String())
 			}
 		}
+		visit(rs, 0)
 		c := fmt.Sprintf("%s:configured-return#%d", fnName(rt), nret)
 		if readOK && 0 == len(other) {
 			ru.OK(c, posOf(ret), "returns the parse of os.ReadFile(s.tmplf) done in this call")
@@ -712,4 +728,46 @@ func checkC07NoScriptOnError(p *Prog, r *Report, ru *Rule, sh *ssa.Function) {
 			}
 		}
 	}
+}
+
+// isBufferAlloc: v is a local strings.Builder / bytes.Buffer (or its address).
+func isBufferAlloc(v ssa.Value) bool {
+	al, ok := v.(*ssa.Alloc)
+	if !ok {
+		return false
+	}
+	t := al.Type().Underlying().(*types.Pointer).Elem().String()
+	return "strings.Builder" == t || "bytes.Buffer" == t
+}
+
+// bufferFills lists the readers copied into the local buffer buf within fn;
+// any other way of writing into it is reported in bad.
+func bufferFills(fn *ssa.Function, buf ssa.Value) (fills []ssa.Value, bad []string) {
+	eachInstr(fn, func(i ssa.Instruction) {
+		c := callCommon(i)
+		if nil == c {
+			return
+		}
+		uses := -1
+		for k, a := range c.Args {
+			if stripConv(a, false) == buf {
+				uses = k
+			}
+		}
+		if uses < 0 {
+			return
+		}
+		switch n := calleeName(c); n {
+		case "io.Copy", "io.CopyBuffer":
+			if 0 == uses {
+				fills = append(fills, c.Args[1])
+			}
+		case "(*bytes.Buffer).ReadFrom", "(*strings.Builder).ReadFrom":
+			fills = append(fills, c.Args[1])
+		case "(*strings.Builder).String", "(*bytes.Buffer).String", "(*bytes.Buffer).Bytes", "(*strings.Builder).Len", "(*bytes.Buffer).Len", "(*strings.Builder).Grow", "(*bytes.Buffer).Grow":
+		default:
+			bad = append(bad, "the buffer is also written by "+n)
+		}
+	})
+	return fills, bad
 }
